@@ -477,19 +477,29 @@ def axis_reference(ctx):
         src = ast.unparse(fn)
         if "relative_length" not in src:
             continue
-        # width/height locals
-        defs = {ast.unparse(s.targets[0]): ast.unparse(s.value) for s in fn.body if isinstance(s, ast.Assign) and isinstance(s.targets[0], ast.Name)}
-        ctx.ob("R03.7", "%s.render[reference lengths]" % cname, defs.get("width") == "kwargs.get('width', kwargs.get('relative_length'))" and defs.get("height") == "kwargs.get('height', kwargs.get('relative_length'))",
-               str({k: defs.get(k) for k in ("width", "height")}), fn.lineno, "percentages refer to the caller's viewport width/height")
+        # width/height locals: identified by what they are read from - kwargs.get("width", kwargs.get("relative_length"))
+        from ..flow import bindings as _bindings, const_value as _cv
+        kw = fn.args.kwarg.arg if fn.args.kwarg else "kwargs"
+        role = {}
+        for tg, v, node_ in _bindings(fn):
+            if isinstance(tg, ast.Name) and isinstance(v, ast.Call) and isinstance(v.func, ast.Attribute) and v.func.attr == "get" and isinstance(v.func.value, ast.Name) and v.func.value.id == kw \
+                    and v.args and _cv(ctx.m, v.args[0]) in ("width", "height"):
+                fallback = len(v.args) == 2 and isinstance(v.args[1], ast.Call) and isinstance(v.args[1].func, ast.Attribute) and v.args[1].func.attr == "get" \
+                    and v.args[1].args and _cv(ctx.m, v.args[1].args[0]) == "relative_length"
+                role[tg.id] = (_cv(ctx.m, v.args[0]), fallback)
+        by_axis = {r[0]: (nm, r[1]) for nm, r in role.items()}
+        ctx.ob("R03.7", "%s.render[reference lengths]" % cname, set(by_axis) == {"width", "height"} and all(f for _, f in by_axis.values()),
+               str({k: v[0] for k, v in by_axis.items()}), fn.lineno, "percentages refer to the caller's viewport width/height")
         for s in ast.walk(fn):
             if isinstance(s, ast.Assign) and isinstance(s.targets[0], ast.Attribute) and isinstance(s.value, ast.Call) and isinstance(s.value.func, ast.Attribute) and s.value.func.attr == "value":
                 attr = s.targets[0].attr
-                rl = [ast.unparse(k.value) for k in s.value.keywords if k.arg == "relative_length"]
+                rl = [k.value for k in s.value.keywords if k.arg == "relative_length"]
                 if not rl or attr not in X_AXIS | Y_AXIS:
                     continue
                 want = "width" if attr in X_AXIS else "height"
                 n += 1
-                ctx.ob("R03.7", "%s.render[%s]" % (cname, attr), rl[0] == want, "relative_length=%s" % rl[0], s.lineno,
+                got = role.get(rl[0].id, (None,))[0] if isinstance(rl[0], ast.Name) else None
+                ctx.ob("R03.7", "%s.render[%s]" % (cname, attr), got == want, "relative_length=%s (the viewport %s)" % (ast.unparse(rl[0]), got), s.lineno,
                        "a percentage on the %s axis must resolve against the viewport %s" % ("x" if attr in X_AXIS else "y", want))
     ctx.need(n >= 20, "R03.7", "too few axis attributes recognised (%d)" % n)
     # circle r: an axis-less length (SVG 1.1 7.10: normalised diagonal); today it is resolved per axis through rx/ry
